@@ -114,10 +114,14 @@ CLAIMS = {
                 "all 256 allow/deny policies: exactly one callback, of the request's own kind, with its unit id, range/index "
                 "and the session role; answer returned unchanged; no handler => Allow without a callback. "
                 "ReadOnlyAuthorizationHandler and the trait's default-deny for all arguments. Glue (handle_frame whole): deny => "
-                "zero point-handler calls and exception 01; allow => as without authorization; two consecutive requests on one "
-                "session with opposite decisions (no carry-over).",
-        "note": "Role extraction from the certificate is C09 territory (outside). Glue runs with MAX_ADU_LENGTH=13 (hook H3) "
-                "and write-single-register requests.",
+                "zero point-handler calls and exception 01; allow => exactly the behaviour without authorization (configured and "
+                "unconfigured unit ids).",
+        "note": "NOT decided: 'the decision is taken per request - an earlier allow never carries over'. The only query that "
+                "exercises two requests on one session (c08_glue_decision_per_request, thorough tier) has never completed: it "
+                "died in the solver after ~27 min both on the clean tree and against a seeded carry-over bug (reported "
+                "inconclusive, exit 2). The per-call mapping kernel shows that is_authorized keeps no state of its own, but "
+                "state added to the session (as that seeded change does) is not seen. Role extraction from the certificate is "
+                "C09 territory (outside). Glue runs with MAX_ADU_LENGTH=13 (hook H3) and write-single-register requests.",
         "design": "DESIGN.md 5.8",
     },
     "C09": {
@@ -163,7 +167,9 @@ CLAIMS = {
         "text": "WildcardIPv4::matches for all patterns x all 2^32 IPv4 and all IPv6 addresses; AddressFilter::matches for "
                 "Any / Exact / WildcardIpv4; get_byte (one field of the wildcard parser) for all ASCII strings of <=4 bytes "
                 "against a reference of '*' or u8::from_str syntax.",
-        "note": "NOT decided: the split/arity logic of from_str on whole strings, AnyOf(HashSet), that the accept loop consults "
+        "note": "NOT decided: the split/arity logic of from_str on whole strings (tried with concrete dot positions: ten shapes "
+                "timed out at 900 s, two shapes ran out of memory after 433 s of symex - e.g. an accepted trailing dot is not "
+                "detected), AnyOf(HashSet), the C-ABI filter parser, that the accept loop consults "
                 "the filter before TLS/Modbus in every variant and that every constructor forwards it (async constructors; "
                 "observation O1 in DESIGN.md).",
         "design": "DESIGN.md 5.16",
